@@ -13,8 +13,15 @@ Oracle on the real code, independent of the Lean model:
     (own percent-decoder for the malformed stream); the expected restricted BODY is computed without the library's restriction
     code: one full collect, own filter "sample name in the set" (families left empty dropped, name/help/type/unit kept), a
     fresh registry, the format's encoder; compared up to the order of family blocks
-  * every GET: 200, Content-Type of the expected format, Content-Encoding: gzip iff expected, body (after gzip.decompress
-    iff the header is present) == that format's generate_latest of the (restricted) registry, collected
+  * every GET: 200, Content-Type EXACTLY the documented content type of the expected format (the two strings are own literals
+    here: `text/plain; version=0.0.4; charset=utf-8`, `application/openmetrics-text; version=1.0.0; charset=utf-8` - whatever
+    version/charset/q parameters the Accept entry carries, the header names the format the body is written in; the format of
+    the body served is also read off the body alone: OpenMetrics ends in `# EOF`), Content-Encoding: gzip iff expected, body
+    (after gzip.decompress iff the header is present) == that format's generate_latest of the (restricted) registry, collected
+  * PARAMETERS are a generated dimension of both headers: version= in {0.0.1, 1.0.0, 0.0.4, 2.0.0, garbage, ...}, charset=, q=,
+    escaping=/proto=/encoding=/v=, in every position and order, with/without whitespace, quoted values, repeated names, upper/
+    mixed-case names, on every media type; a finite grid of them is enumerated (param_grid) and the Accept / Accept-Encoding
+    values real clients send (Prometheus 1.x/2.x/3.x, Telegraf, curl, browsers) are in the corpus and the generator
   * the three front-ends agree (WSGI/ASGI also with compression disabled)
   * WSGI: OPTIONS -> 200 + Allow + empty body + nothing collected; every other non-GET -> 405 + Allow + nothing collected
 T2: the driver computes, per front-end, (status, header list, body = format/restriction/gzip count, collected) for the same
@@ -408,6 +415,126 @@ PARAMS = ['q=0.5', ' q=0.8', 'q=0', 'q=1.0', 'version=1.0.0', ' version=1.0.0', 
           ' ', 'escaping=allow-utf-8', 'x="a b"', OM, 'gzip']
 
 
+# media-type / coding PARAMETERS as a generated dimension: name x value x spelling.  The values are the ones seen on the wire
+# (Prometheus 2.x asks for OpenMetrics `version=0.0.1`, 2.5+/3.x for `version=1.0.0`, the text format is `version=0.0.4`;
+# 3.x adds `escaping=`; the protobuf entry carries `proto=`/`encoding=`; browsers send `v=b3`), plus unknown/garbage values.
+P_VERSION = ['0.0.1', '0.0.1', '0.0.1', '1.0.0', '1.0.0', '0.0.4', '0.0.4', '2.0.0', 'garbage', '', '1.0', '0.0.10', '0.0.1-draft', '1.0.0.0']
+P_CHARSET = ['utf-8', 'utf-8', 'UTF-8', 'utf8', 'iso-8859-1', 'us-ascii']
+P_Q = ['1', '1.0', '0.9', '0.8', '0.75', '0.6', '0.5', '0.1', '0', '0.000', '1.000', '.5', '2', 'x', '']
+P_OTHER = [('escaping', ['allow-utf-8', 'underscores', 'dots', 'values']), ('proto', ['io.prometheus.client.MetricFamily']),
+           ('encoding', ['delimited', 'text', 'compact-text']), ('v', ['b3']), ('level', ['1']),
+           ('x', ['a b', 'a,b', 'a;b', 'a=b', OM, 'version=0.0.1', 'gzip'])]
+P_NAMES = ['version'] * 8 + ['q'] * 5 + ['charset'] * 3 + ['other'] * 4
+P_NAMES_CODING = ['q'] * 8 + ['version', 'charset', 'other', 'other']
+
+
+def render_param(rng, name, value):
+    """one `name=value` parameter: upper/lower/mixed-case name, token or quoted-string value, optional whitespace around the
+    parameter and (rarely, outside the RFC grammar) around `=`"""
+    r = rng.random()
+    if r >= 0.8:
+        name = rng.choice([name.upper(), name.capitalize(), name[:1] + name[1:].upper()])
+    special = any(c in value for c in ' ,;')
+    if rng.random() < (0.8 if special else 0.12):
+        value = '"' + value + '"'
+    eq = '=' if rng.random() < 0.9 else rng.choice([' = ', '= ', ' =', ''])
+    pre = rng.choice(['', '', '', ' ', ' ', ' ', '\t', '  ', '\xa0', '\u2003'])
+    post = rng.choice(['', '', '', '', ' ', '\t', '\xa0'])
+    return pre + name + eq + value + post
+
+
+def gen_params(rng, names=P_NAMES):
+    """0..4 parameters in any order (so `q=` and `version=` occur in every position), sometimes a repeated parameter name with
+    another value"""
+    out, used = [], []
+    for _ in range(rng.choice([0, 1, 1, 1, 2, 2, 2, 3, 4])):
+        kind = rng.choice(names)
+        if used and rng.random() < 0.2:
+            kind = rng.choice(used)                     # repeated parameter
+        used.append(kind)
+        if kind == 'version':
+            out.append(render_param(rng, 'version', rng.choice(P_VERSION)))
+        elif kind == 'q':
+            out.append(render_param(rng, 'q', rng.choice(P_Q)))
+        elif kind == 'charset':
+            out.append(render_param(rng, 'charset', rng.choice(P_CHARSET)))
+        else:
+            n, vs = rng.choice(P_OTHER)
+            out.append(render_param(rng, n, rng.choice(vs)))
+    return out
+
+
+# Accept / Accept-Encoding values real clients send
+REAL_ACCEPT = [
+    # Prometheus 2.x server (up to 2.4x): OpenMetrics draft version first
+    OM + '; version=0.0.1,text/plain;version=0.0.4;q=0.5,*/*;q=0.1',
+    # Prometheus 2.2x-2.4x
+    OM + ';version=1.0.0,' + OM + ';version=0.0.1;q=0.75,text/plain;version=0.0.4;q=0.5,*/*;q=0.1',
+    # Prometheus 2.49+ (native histograms on / off)
+    'application/vnd.google.protobuf;proto=io.prometheus.client.MetricFamily;encoding=delimited,' + OM
+    + ';version=1.0.0;q=0.8,' + OM + ';version=0.0.1;q=0.75,text/plain;version=0.0.4;q=0.5,*/*;q=0.1',
+    OM + ';version=1.0.0;q=0.5,' + OM + ';version=0.0.1;q=0.4,text/plain;version=0.0.4;q=0.3,*/*;q=0.2',
+    # Prometheus 3.x
+    OM + ';version=1.0.0;escaping=allow-utf-8;q=0.6,' + OM + ';version=0.0.1;q=0.5,text/plain;version=1.0.0;escaping=allow-utf-8;q=0.4,'
+    'text/plain;version=0.0.4;q=0.3,*/*;q=0.2',
+    'application/vnd.google.protobuf;proto=io.prometheus.client.MetricFamily;encoding=delimited;escaping=allow-utf-8;q=0.6,' + OM
+    + ';version=1.0.0;escaping=allow-utf-8;q=0.5,' + OM + ';version=0.0.1;q=0.4,text/plain;version=1.0.0;escaping=allow-utf-8;q=0.3,'
+    'text/plain;version=0.0.4;q=0.2,*/*;q=0.1',
+    # Prometheus 3.x with a text-only scrape protocol list
+    'text/plain;version=1.0.0;escaping=allow-utf-8;q=0.5,text/plain;version=0.0.4;q=0.4,*/*;q=0.3',
+    # Prometheus 1.x / Telegraf
+    'application/vnd.google.protobuf;proto=io.prometheus.client.MetricFamily;encoding=delimited;q=0.7,text/plain;version=0.0.4;q=0.3,*/*;q=0.1',
+    'application/vnd.google.protobuf;proto=io.prometheus.client.MetricFamily;encoding=delimited;q=0.7,text/plain;version=0.0.4;q=0.3',
+    # a scraper pinned to one format
+    OM + '; version=0.0.1', OM + ';version=0.0.1;q=0.75', OM + '; version=1.0.0; charset=utf-8', 'text/plain; version=0.0.4; charset=utf-8',
+    'text/plain;version=0.0.4', 'text/plain',
+    # curl / wget / python-requests / Go net/http with an explicit header
+    '*/*',
+    # browsers (Chrome, Firefox, Safari) and an XHR/fetch default
+    'text/html,application/xhtml+xml,application/xml;q=0.9,image/avif,image/webp,image/apng,*/*;q=0.8,application/signed-exchange;v=b3;q=0.7',
+    'text/html,application/xhtml+xml,application/xml;q=0.9,*/*;q=0.8',
+    'text/html,application/xhtml+xml,application/xml;q=0.9,image/avif,image/webp,image/png,image/svg+xml,*/*;q=0.8',
+    'application/json, text/plain, */*',
+]
+REAL_AE = ['gzip', 'gzip, deflate', 'gzip, deflate, br', 'gzip, deflate, br, zstd', 'gzip;q=1.0, identity; q=0.5, *;q=0', 'identity',
+           'deflate, gzip;q=1.0, *;q=0.5', 'br;q=1.0, gzip;q=0.8, *;q=0.1', 'gzip,deflate', '*', 'identity;q=1, *;q=0', 'zstd, br']
+
+
+def respace(rng, h):
+    """the same list with other optional whitespace around `;` and `,` and, sometimes, upper-case parameter names"""
+    semi, comma = rng.choice([';', '; ', ' ;', ' ; ', ';\t']), rng.choice([',', ', ', ' ,', ' , '])
+    h = h.replace('; ', ';').replace(', ', ',')
+    if rng.random() < 0.2:
+        h = h.replace('version=', 'VERSION=').replace('q=', 'Q=')
+    return h.replace(';', semi).replace(',', comma)
+
+
+def gen_real(rng, pool):
+    h = rng.choice(pool)
+    return respace(rng, h) if rng.random() < 0.5 else h
+
+
+def param_grid():
+    """finite grid, enumerated: every media type of interest x one parameter (version / charset / q value) x its spellings x the
+    position of the entry in the list; plus two-parameter orders and repeated parameters"""
+    one = []
+    for v in ['0.0.1', '1.0.0', '0.0.4', '2.0.0', 'garbage']:
+        one += [';version=' + v, '; version=' + v, ' ;version=' + v, ' ; version=' + v + ' ', ';version="' + v + '"', ';VERSION=' + v,
+                ';Version=' + v, ';version=' + v + ';charset=utf-8', ';charset=utf-8;version=' + v, '; charset=utf-8; version=' + v,
+                ';version=' + v + ';q=0.5', ';q=0.5;version=' + v, '; q=0.5; version=' + v + '; charset=utf-8', ';version=1.0.0;version=' + v,
+                ';version=' + v + ';version=1.0.0', ';version=' + v + ';escaping=allow-utf-8;q=0.6', ';version = ' + v, ';version=' + v + ';']
+    for cs in ['utf-8', 'UTF-8', 'iso-8859-1']:
+        one += [';charset=' + cs, '; charset=' + cs, ';CHARSET="' + cs + '"', ';charset=' + cs + ';charset=utf-8']
+    for q in ['1', '0.5', '0', '0.000', 'x']:
+        one += [';q=' + q, '; q=' + q, ';Q=' + q, ' ;q=' + q + ' ', ';q=' + q + ';q=1']
+    out = []
+    for media in [OM, 'text/plain', '*/*', OM + '-foo', 'application/vnd.google.protobuf', OM.upper()]:
+        for ps in one:
+            e = media + ps
+            out += [e, 'text/plain;version=0.0.4;q=0.5,' + e, e + ',*/*;q=0.1', 'text/html, ' + e + ' ,*/*;q=0.1']
+    return out
+
+
 def to_wire(t, rng=None):
     """Unicode text -> the bytes put on the wire (UTF-8, or latin-1 when possible and chosen), written as latin-1 text"""
     if all(ord(c) < 256 for c in t) and (rng is None or rng.random() < 0.6):
@@ -429,7 +556,10 @@ def gen_header(rng, tokens, simple=False):
     for _ in range(n):
         tok = rng.choice(tokens)
         pre, post = (rng.choice(WS_POOL[:8]), rng.choice(WS_POOL[:8])) if simple else (rng.choice(WS_POOL), rng.choice(WS_POOL))
-        ps = ''.join(';' + rng.choice(PARAMS) for _ in range(rng.choice([0, 0, 1, 1, 2, 3])))
+        if rng.random() < 0.35:
+            ps = ''.join(';' + rng.choice(PARAMS) for _ in range(rng.choice([0, 0, 1, 1, 2, 3])))
+        else:
+            ps = ''.join(';' + p for p in gen_params(rng, P_NAMES if tokens is TOKENS_ACCEPT else P_NAMES_CODING))
         items.append(pre + tok + post + ps)
     return ','.join(items)
 
@@ -510,6 +640,17 @@ def corpus():
            # interleaved selections against the same objects: A B A B B A, one scrape each
            c(q='name[]=target_info&name[]=rt_sum', repeat=1), c(q='name[]=up', repeat=1), c(q='name[]=target_info&name[]=rt_sum', repeat=1),
            c(q='name[]=up', repeat=1), c(q='name[]=up', repeat=1), c(q='name[]=target_info&name[]=rt_sum', repeat=1), c(repeat=3)]
+    # what real clients send (Prometheus 1.x/2.x/3.x, Telegraf, curl, browsers), alone, with gzip, with a restriction
+    for i, h in enumerate(REAL_ACCEPT):
+        out.append(c(acc=[h], repeat=1))
+        out.append(c(acc=[h], ae=[REAL_AE[i % len(REAL_AE)]], q=['', 'name[]=up', 'name[]=reqs_total&name[]=target_info'][i % 3], repeat=1))
+    for h in REAL_AE:
+        out.append(c(ae=[h], repeat=1))
+    # the parameter grid on the media type that selects OpenMetrics and on its near-miss (the whole grid goes through
+    # choose_encoder in run_functions)
+    for h in param_grid():
+        if h.startswith(OM) and ',' not in h:
+            out.append(c(acc=[h], repeat=1))
     out = [wire_case(x) for x in out]
     for m in METHODS:
         out.append(c(method=m, acc=[OM], ae=['gzip'], q='name[]=up'))
@@ -525,6 +666,7 @@ def gen_case(rng):
         if x < 0.12: return None
         if x < 0.22: return [gen_malformed(rng, lit)]
         if x < 0.28: return [gen_header(rng, tokens), gen_header(rng, tokens)]      # repeated field line
+        if x < 0.40: return [gen_real(rng, REAL_ACCEPT if tokens is TOKENS_ACCEPT else REAL_AE)]      # what real clients send
         return [gen_header(rng, tokens, simple=rng.random() < 0.5)]
     others = [list(h) for h in rng.sample(OTHER_HEADERS, rng.choice([0, 0, 1, 2, 3]))]
     return wire_case(dict(method=method, path=rng.choice(['/metrics', '/metrics', '/metrics', '/metrics', '/', '/x/y', '/favicon.ico', '/favicon.icon',
@@ -552,6 +694,15 @@ def blocks(body):
 def same_expo(body, exp, restricted):
     """exact for the unrestricted exposition, up to the order of family blocks for a restricted one"""
     return body == exp if not restricted else blocks(body) == blocks(exp)
+
+
+FMT_NAME = {'text': 'text 0.0.4', 'om': 'OpenMetrics 1.0.0'}
+
+
+def body_format(body):
+    """which of the two formats a (decoded) body is written in, read off the body alone: an OpenMetrics exposition ends in the
+    `# EOF` line, a text-format exposition never has one"""
+    return 'om' if body.endswith(b'# EOF\n') else 'text'
 
 
 def hval(r, name):
@@ -585,8 +736,18 @@ def oracle_get(world, fe, r, acc, ae, names, compression, case):
     if not str(r['status']).startswith('200'):
         fails.append(('C17:status', '%s answered %r to a GET' % (fe, r['status'])))
     ct = hval(r, 'Content-Type')
+    body, prob = decoded_body(r)
     if ct != [CT[fmt]]:
-        fails.append(('C17:content-type', '%s Content-Type %r, expected %r (Accept %r)' % (fe, ct, CT[fmt], acc)))
+        # "Content-Type matching the body format": the header must be EXACTLY one of the two content types the library documents
+        # for its two encoders (own literals above), the one of the format the rule selects - and of the body actually served
+        why = ''
+        if len(ct) != 1 or ct[0] not in CT.values():
+            why = '; it is not one of the two content types of the library\'s formats (%r, %r)' % (CT['text'], CT['om'])
+        if body is not None:
+            served = body_format(body)
+            why += '; the body served is the %s exposition (%s), whose content type is %r' % (
+                FMT_NAME[served], "ends in '# EOF'" if served == 'om' else "no '# EOF' terminator", CT[served])
+        fails.append(('C17:content-type', '%s Content-Type %r, expected %r (Accept %r)%s' % (fe, ct, CT[fmt], acc, why)))
     ce = hval(r, 'Content-Encoding')
     if gz and ce != ['gzip']:
         fails.append(('C17:encoding-header', '%s: gzip expected (Accept-Encoding %r, compression enabled) but Content-Encoding is %r'
@@ -594,7 +755,6 @@ def oracle_get(world, fe, r, acc, ae, names, compression, case):
     if not gz and ce:
         fails.append(('C17:encoding-header', '%s: Content-Encoding %r although %s (Accept-Encoding %r)'
                       % (fe, ce, 'gzip is not listed' if compression else 'compression is disabled', ae)))
-    body, prob = decoded_body(r)
     exp = world.expo(fmt, restr)
     if prob:
         fails.append(('C17:body', '%s: %s' % (fe, prob)))
@@ -851,6 +1011,18 @@ def shrink(world, case, sig):
             if len(items) > 1:
                 items = lib.shrink_list(items, lambda xs: still(dict(cur, **{key: [','.join(xs)]})))
                 cur[key] = [','.join(items)]
+            # then the parameters of every remaining item, one at a time
+            items = cur[key][0].split(',')
+            for i in range(len(items)):
+                parts = items[i].split(';')
+                j = len(parts) - 1
+                while j >= 1:
+                    cand = items[:i] + [';'.join(parts[:j] + parts[j + 1:])] + items[i + 1:]
+                    if still(dict(cur, **{key: [','.join(cand)]})):
+                        parts = parts[:j] + parts[j + 1:]
+                        items = cand
+                    j -= 1
+            cur[key] = [','.join(items)]
     if cur['q']:
         ps = cur['q'].split('&')
         if len(ps) > 1:
@@ -933,8 +1105,10 @@ def run_cases(ctx, world, cases, verbose=False):
 def run_functions(ctx, world, rng, n):
     """function-level correspondence: choose_encoder, gzip_accepted, and the str primitives of the model"""
     from prometheus_client.openmetrics import exposition as om
-    hs_a = [None, ''] + [gen_header(rng, TOKENS_ACCEPT) for _ in range(n)] + [gen_malformed(rng, OM) for _ in range(n // 2)]
-    hs_e = [None, ''] + [gen_header(rng, TOKENS_CODING) for _ in range(n)] + [gen_malformed(rng, 'gzip') for _ in range(n // 2)]
+    hs_a = ([None, ''] + REAL_ACCEPT + param_grid() + [gen_real(rng, REAL_ACCEPT) for _ in range(n // 4)]
+            + [gen_header(rng, TOKENS_ACCEPT) for _ in range(n)] + [gen_malformed(rng, OM) for _ in range(n // 2)])
+    hs_e = ([None, ''] + REAL_AE + [gen_real(rng, REAL_AE) for _ in range(n // 8)]
+            + [gen_header(rng, TOKENS_CODING) for _ in range(n)] + [gen_malformed(rng, 'gzip') for _ in range(n // 2)])
     prim = [rng.choice(WS_POOL) + rng.choice(TOKENS_CODING + TOKENS_ACCEPT) + rng.choice(WS_POOL) for _ in range(n // 2)]
     lines = (['c17 choose ' + ('-' if h is None else lib.hx(h)) for h in hs_a]
              + ['c17 gzip ' + ('-' if h is None else lib.hx(h)) for h in hs_e]
@@ -960,8 +1134,15 @@ def run_functions(ctx, world, rng, n):
         exp = want_format(h)
         ctx.case(nontrivial_key=('choose', h), sample=None)
         ctx.count('fn choose_encoder')
-        if real != (exp, exp):
-            ctx.fail('C17:content-type', 'choose_encoder(%r) returns encoder %s with content type %s; expected %s' % (h, real[0], real[1], exp),
+        if h is not None and ';' in h:
+            ctx.count('fn choose_encoder: header with parameters')
+        try:
+            produced = body_format(enc(world.reg))
+        except Exception as e:
+            produced = 'raises ' + type(e).__name__
+        if real != (exp, exp) or produced != exp:
+            ctx.fail('C17:content-type', 'choose_encoder(%r) returns encoder %s (its output is the %s exposition) with content type %r; '
+                     'expected the %s encoder with exactly %r' % (h, real[0], FMT_NAME.get(produced, produced), ct, FMT_NAME[exp], CT[exp]),
                      {'fn': 'choose', 'h': h})
         if replies is not None:
             ctx.traces += 1
@@ -1020,7 +1201,9 @@ def run_functions(ctx, world, rng, n):
 
 def run(ctx):
     ctx.rule = ('requests = method × path × Accept (grammar items: exact/near-miss/case-variant tokens, 19 whitespace strings, '
-                'parameters and q-values; malformed token soup; absent; repeated field lines) × Accept-Encoding (same) × field-name '
+                'parameters as a dimension of their own: version= 0.0.1/1.0.0/0.0.4/2.0.0/garbage…, charset=, q=, escaping=/proto=/… in '
+                'every position, spaced/quoted/repeated/upper-case, an enumerated grid of them, and the header values Prometheus '
+                '1.x/2.x/3.x, Telegraf, curl and browsers send; malformed token soup; absent; repeated field lines) × Accept-Encoding (same) × field-name '
                 'spellings × unrelated/near-miss header fields (all header bytes put on the wire as UTF-8 or latin-1, so bytes >= 0x80 occur) × '
                 'query strings (0..5 pieces: name[] literal or percent-encoded, blank values, unrelated and near-miss keys, malformed '
                 "pieces, raw '#', '?', ';', '&&', '=' oddities) × disable_compression; each request drives WSGI, ASGI and "
